@@ -96,6 +96,11 @@ impl Program {
         if let Some(file_in_use) = self.files_in_use.borrow().get(&path) {
             let mut view = self.module_cache.borrow_mut();
 
+            #[cfg(mscript_verif)]
+            if !view.contains_key(&format!("{path}#__module__")) {
+                crate::verif::module_event("file_use", &path, "\"from\":\"memory\"");
+            }
+
             use std::borrow::Borrow;
             if !view.contains_key::<String>(path.borrow()) {
                 log::info!("Syncing {path}'s exports");
@@ -109,6 +114,9 @@ impl Program {
         }
 
         let new_file = MScriptFile::open(Rc::clone(&path))?;
+
+        #[cfg(mscript_verif)]
+        crate::verif::module_event("file_use", &path, "\"from\":\"disk\"");
 
         {
             let mut exports = self.module_cache.borrow_mut();
@@ -235,6 +243,8 @@ impl Program {
                     let view = self.module_cache.borrow_mut();
 
                     if let Some(cached) = view.get(path) {
+                        #[cfg(mscript_verif)]
+                        crate::verif::module_event("module_entry", path, "\"hit\":true");
                         let module = cached.borrow();
                         log::info!("runtime @import cache HIT -> {module:?} (from {view:?})");
                         return Ok(ReturnValue::Value(BytecodePrimitive::Module(
@@ -245,7 +255,13 @@ impl Program {
                     log::info!("runtime @import cache miss on {path}");
                 };
 
+                #[cfg(mscript_verif)]
+                crate::verif::module_event("module_entry", path, "\"hit\":false");
+
                 let result = self.process_standard_jump_request(request)?;
+
+                #[cfg(mscript_verif)]
+                crate::verif::module_event("module_done", path, "");
 
                 let ReturnValue::Value(BytecodePrimitive::Module(ref raw_module)) = result else {
                     bail!("{request:?} did not yield a module, but instead {result}");
